@@ -32,6 +32,22 @@ FIRST_CONTACT = {   # seeds the checks missed when first run against them, and w
     "C14-8": "missed (only d = 3 was under contract) -> nested pairing / projection under recursive contracts, induction step at d = 3, 4, 5",
     "C16-5": "missed -> frame clause 'the model's initial value is untouched'; engine: numpy augmented assignment now mutates in place (aliases see it)",
     "C16-6": "missed -> time-dependent coefficient a(t, x) = G(t) in the Euler lemma and a symbolic lemma for the coupled scheme (both components)",
+    "C02-9": "missed -> two-dimensional battery grid with a single state on one side of the origin (line buckets off the axes)",
+    "C06-7": "undecided (engine object built without its constructor) -> engine built by the real constructor, the configuration's maximum level lowered afterwards",
+    "C06-8": "missed -> contract on ConfigurationMultiLevel.__init__ (levels / sample size stored unchanged, 0 included)",
+    "C07-8": "undecided (np.linalg.det unmodelled) -> determinant model in the executor; the two-control lemma then refutes",
+    "C08-8": "missed -> seeding-order lemma extended to price_with_constant_mc_paths_and_level + native fixed-level repeat run",
+    "C09-7": "undecided (parameter object built without its constructor) -> HEM / Merton parameters built by the real constructors; C20's synchronisation lemma also runs under C09",
+    "C10-7": "missed -> C04's chain-constructor contract (with the accessor history) also runs under C10",
+    "C10-8": "missed -> clause 'drift of an EXISTING simulation process follows a rate update' (Process.process_drift real body)",
+    "C12-8": "missed -> Clayton groundedness / margins with parameters reassigned after construction (C11 lemma shared with C12)",
+    "C13-8": "missed (memoising decorators were dropped by the extraction) -> decorators now modelled; bounded history 'second grid after a parameter update'",
+    "C15-8": "missed -> lemma: two paths one after the other on the same coupled fixed-dates simulator share nothing",
+    "C17-9": "missed -> lemma: Product.update follows the latest set-up (shared underlying, underlying replaced)",
+    "C17-10": "missed (class not under contract) -> DefaultTimeNthUnderlying in both representations",
+    "C18-7": "missed -> battery history: expiry priced, truncation parameter reassigned, same expiry priced again",
+    "C18-8": "missed -> battery: FFT = COS on the second of two models differing in one parameter only; after a spot update",
+    "C19-7": "missed (memoising decorators were dropped) -> decorators modelled; clauses 'theta after the pricer's model changed'",
 }
 
 
